@@ -1,9 +1,38 @@
 ----------------------------- MODULE FindingsC05 -----------------------------
-EXTENDS SchemaSem
+EXTENDS ParamCodec
 (* F-C05-1: decodeValue's oneOf/anyOf branches return their own untyped error for an absent *)
 (* required parameter, so it is rejected but not reported as ErrInvalidRequired.           *)
+(*                                                                                         *)
+(* F-C05-4: urlValuesDecoder works on the percent-DECODED query (url.Values) and splits a   *)
+(* non-exploded form array / object at "," after decoding: a member that holds a comma,     *)
+(* sent escaped (p=a%2Cb,c  for ["a,b","c"], RFC 6570 3.2.1/3.2.8), is cut in two.  (The    *)
+(* path decoder splits first and unescapes the members.)                                    *)
+(*                                                                                         *)
+(* F-C05-5: buildResObj keeps only the properties the schema declares (or covers by an      *)
+(* additionalProperties schema) and silently drops the others, so additionalProperties:     *)
+(* false is never enforced on an object parameter: {w:2,x:1} passes as {x:1}.               *)
+(*                                                                                         *)
+(* F-C05-6: buildResObj decodes EVERY property sent by the additionalProperties schema when *)
+(* there is one -- also the declared ones, overwriting their properly typed value: with     *)
+(* properties {y: string} and additionalProperties {type: integer},  y=ab  is a parse error.*)
+ObjHas(line) == line.c.presence = "present" /\ line.c.v.t = "obj" /\ "dec" \in DOMAIN line
+
 Class(line, bad) ==
-   IF bad = {"absent_required_reported_missing"} /\ line.c.presence = "absent" /\ line.c.required
-      /\ (Has(line.c.schema, "oneOf") \/ Has(line.c.schema, "anyOf")) /\ line.verdict = "other"
-   THEN "absent_required_composition_untyped_error" ELSE "none"
+   LET c == line.c IN
+   IF bad = {"absent_required_reported_missing"} /\ c.presence = "absent" /\ c.required
+      /\ (Has(c.schema, "oneOf") \/ Has(c.schema, "anyOf")) /\ line.verdict = "other"
+   THEN "absent_required_composition_untyped_error"
+   ELSE IF c.presence = "present" /\ c.cell.in = "query" /\ c.cell.style = "form" /\ ~c.cell.explode
+           /\ c.v.t \in {"arr", "obj"} /\ UsesEscapedDelim(c.cell, c.v)
+           /\ bad \subseteq {"decoded_is_inverse_of_wire", "valid_value_accepted"} /\ bad # {}
+   THEN "query_member_delimiter_unescaped_before_split"
+   ELSE IF ObjHas(line) /\ Has(c.schema, "apFalse") /\ UndeclaredKeys(c.schema, c.v) # {}
+           /\ bad = {"invalid_value_rejected"} /\ line.verdict = "ok"
+   THEN "additional_properties_false_not_enforced"
+   ELSE IF ObjHas(line) /\ Has(c.schema, "apSchema") /\ Has(c.schema.apSchema, "type")
+           /\ (\E i \in DOMAIN c.v.k : PropIdx(c.schema, c.v.k[i]) # 0 /\ ~TypeIs(c.schema.apSchema.type, c.v.v[i]))
+           /\ bad \subseteq {"decoded_is_inverse_of_wire", "valid_value_accepted"} /\ bad # {}
+           /\ line.dec.err = "parse" /\ line.verdict = "parse"
+   THEN "additional_properties_schema_applied_to_declared"
+   ELSE "none"
 =============================================================================
